@@ -67,6 +67,25 @@ def applier_state(c, mask, batch=None):
                 d = A.dotted(t)
                 if d and d.startswith("self._") and d.endswith("_mask"):
                     attrs[d.split(".")[1]] = mask
+    # attributes the REAL constructor derives from the presence mask alone (a mask expanded or converted once at construction instead
+    # of at every refresh): run those assignments of __init__ on the stand-in state, in order; anything else the constructor does is
+    # outside this function-level rule (C01.R10 runs the whole constructor)
+    masks = {k for k in attrs if k.endswith("_mask")}
+    for st in c.methods["__init__"].node.body:
+        if not (isinstance(st, ast.Assign) and len(st.targets) == 1):
+            continue
+        tgt = A.dotted(st.targets[0])
+        if not (tgt and tgt.startswith("self.") and tgt.count(".") == 1) or tgt.split(".")[1] in attrs:
+            continue
+        reads = {A.dotted(n_) for n_ in ast.walk(st.value) if isinstance(n_, ast.Attribute) and isinstance(n_.value, ast.Name) and n_.value.id == "self"}
+        if not reads or not (reads & {f"self.{m_}" for m_ in masks}) or not reads <= {f"self.{a_}" for a_ in attrs}:
+            continue
+        try:
+            Interp({}, attrs, {}, cls_name=c.name).run([st])
+        except Undecided:
+            continue
+        if tgt.split(".")[1] in attrs:
+            masks.add(tgt.split(".")[1])
     return attrs
 
 
